@@ -17,6 +17,7 @@ package utils
 import (
 	"bytes"
 	"encoding/json"
+	"errors"
 	"strconv"
 	"strings"
 
@@ -523,7 +524,7 @@ func ParseDecimal64(v string) (*sdcpb.Decimal64, error) {
 	trimmed := strings.TrimSpace(v)
 
 	if len(trimmed) == 0 {
-		return nil, nil
+		return nil, errors.New("empty string is not a decimal64 value")
 	}
 
 	// Split the string into integer and fractional parts.
